@@ -15,7 +15,7 @@ EXPLANATION = ('The planner\'s own choice of victims is C08 (not applicable). De
                'same metadata, is exactly atime >= mtime; (G3) directories are filtered before the plan (= C17 R17.2); (G4) elements '
                'of the plan\'s to_evict flow only into unlink(directory + their own file name), elements of to_move_back only '
                'into the re-stamping utimens, both visited with forward vector iterators, directory = prune\'s parameter.')
-FLOORS = {'G1': 3, 'G2': 3, 'G3': 1, 'G4': 4, 'G5': 3}
+FLOORS = {'G1': 3, 'G2': 3, 'G3': 1, 'G4': 5, 'G5': 3}
 
 
 def planner_events(ctx, q):
@@ -204,6 +204,13 @@ def g4(ctx):
                               not any(VAL[s][0] == 'sym' and VAL[s][1] == 'app' and 'rev' in VAL[s][2].lower() for s in values.subs(q.E[e][2]['args'][0])) for e in nexts)
     out.append(inst('G4', 'plan order', okf, 'both plan vectors are walked front to back' if okf else
                     'a plan vector is not applied in plan order (%s)' % sorted({q.E[e][2]['path'] for e in nexts})))
+    # "deletes exactly as many files as needed": the evictions do not depend on the reprieves succeeding -- no unlink of
+    # an evictee comes after a re-stamp (whose failure, e.g. on a file we do not own, aborts what follows it)
+    late = q.never_after(st, rm)
+    out.append(inst('G4', 'evictions before reprieves', bool(rm) and bool(st) and not late,
+                    'every eviction is performed before the first re-stamp: a failed reprieve cannot leave the directory over capacity' if rm and st and not late else
+                    'an eviction is performed after a re-stamp: one reprieve that fails (EPERM, ELOOP, ...) aborts the pruning before anything is deleted',
+                    path=witness_path(q, late[0][1]) if late else []))
     dirs_ok = all(path_class(ctx, q, arg_role(q.E[e][2], 'path')).startswith('Value/Listed') for e in rm + st)
     out.append(inst('G4', 'directory', dirs_ok, 'all of it inside prune\'s directory parameter' if dirs_ok else 'maintenance touches a path outside the pruned directory'))
     return out
